@@ -104,6 +104,13 @@ Commit(c, kind, x, c2) ==
     /\ last' = [op |-> "commit"]
     /\ UNCHANGED <<base, file>>
 
+\* Handling any group event first derives (and stores) the exporter secret of the client's current epoch
+\* (messages/decryption.rs:161) unless the dedup record short-cuts the call.  Whether the secret of the CURRENT
+\* epoch is already stored is immaterial (it can always be derived while the client is a member), so the model
+\* simply records it; trace validation compares stored secrets of past epochs only.
+Touched(c) == IF CurKey(c) = NoKeyId THEN st ELSE [st EXCEPT ![c] = [@ EXCEPT !.sec = @ \cup {CurKey(c)}]]
+NoChangeAt(c) == st' = Touched(c)
+
 \* client c is handed the winning commit K_k
 CanApplyK(c, k) == InGroup(c) /\ st[c].active /\ ~st[c].lost /\ st[c].ep = k - 1 /\ Member(c, k - 1)
 CanRollbackK(c, k) == InGroup(c) /\ st[c].active /\ st[c].lost /\ st[c].ep = k
@@ -112,7 +119,7 @@ DeliverK(c, k) ==
     /\ IF CanApplyK(c, k) \/ CanRollbackK(c, k)
        THEN /\ st' = [st EXCEPT ![c] = Advance(st[c], c, k)]
             /\ last' = [op |-> "deliverK", res |-> "Commit"]
-       ELSE /\ st' = st
+       ELSE /\ NoChangeAt(c)
             /\ last' = [op |-> "deliverK", res |-> "Other"]
     /\ UNCHANGED <<base, head, roster, forks, file>>
 
@@ -123,7 +130,7 @@ DeliverL(c, k) ==
     /\ IF CanApplyL(c, k)
        THEN /\ st' = [st EXCEPT ![c] = [@ EXCEPT !.ep = k, !.lost = TRUE, !.sec = @ \cup {k - 1, LostKey(k)}]]
             /\ last' = [op |-> "deliverL", res |-> "Commit"]
-       ELSE /\ st' = st
+       ELSE /\ NoChangeAt(c)
             /\ last' = [op |-> "deliverL", res |-> "Other"]
     /\ UNCHANGED <<base, head, roster, forks, file>>
 
@@ -148,22 +155,27 @@ Holds(c, f) == \E a \in st[c].ann : a.f = f
 DeliverA(c, f) ==
     /\ Announced(f)
     /\ IF c = file[f].sender
-       THEN /\ st' = st                                    \* echo: Created -> Processed, the stored epoch is kept
-            /\ last' = [op |-> "deliverA", res |-> IF st[c].active THEN "App" ELSE "Other"]
+       THEN /\ NoChangeAt(c)                                \* echo: Created -> Processed, the stored epoch is kept
+            /\ last' = [op |-> "deliverA", res |-> "Other"]    \* first echo: ApplicationMessage, later ones: refused; no change either way
        ELSE IF CanRead(c, f) /\ ~Holds(c, f)
        THEN /\ st' = [st EXCEPT ![c] = [@ EXCEPT !.ann = @ \cup {[f |-> f, epoch |-> file[f].epoch]},
                                                     !.sec = @ \cup (IF CurKey(c) = NoKeyId THEN {} ELSE {CurKey(c)})]]
             /\ last' = [op |-> "deliverA", res |-> "App"]
-       ELSE /\ st' = st
+       ELSE /\ NoChangeAt(c)
             /\ last' = [op |-> "deliverA", res |-> "Other"]
     /\ UNCHANGED <<base, head, roster, forks, file>>
 
-\* decrypt_from_download at client c with lookup result h and tamper class t
+\* decrypt_from_download at client c with lookup result h and tamper class t.  When the hinted epoch does not
+\* give the plaintext the current epoch's key is derived - which also stores that epoch's exporter secret.
+BadVersion(t) == t \in {"ver_v1", "ver_unknown"}
+HintPathOK(c, f, h, t) == t = "none" /\ h # NoHint /\ h \in st[c].sec /\ h = file[f].epoch
+FallbackTried(c, f, h, t) == ~HintPathOK(c, f, h, t) /\ ~(h # NoHint /\ h \in st[c].sec /\ BadVersion(t))
 Decrypt(c, f, h, t) ==
     /\ Announced(f)
     /\ h \in Hints(c, f)
     /\ last' = [op |-> "decrypt", c |-> c, f |-> f, hint |-> h, tamper |-> t, ok |-> DecryptsWith(c, f, h, t)]
-    /\ st' = st
+    /\ st' = IF FallbackTried(c, f, h, t) /\ CurKey(c) # NoKeyId
+             THEN [st EXCEPT ![c] = [@ EXCEPT !.sec = @ \cup {CurKey(c)}]] ELSE st
     /\ UNCHANGED <<base, head, roster, forks, file>>
 
 -----------------------------------------------------------------------------
@@ -177,7 +189,7 @@ MembersDecrypt ==
     \A c \in Clients, f \in Files :
         (Announced(f) /\ Member(c, file[f].epoch) /\ Holds(c, f)) =>
             \/ \A h \in Hints(c, f) : DecryptsWith(c, f, h, "none")
-            \/ ExcusedHint(c, f) /\ PrintT(<<"KNOWN-FINDING", "C17", "HintByHashOnly", c, f>>)
+            \/ ExcusedHint(c, f)
 MembersDecryptPlain ==
     \A c \in Clients, f \in Files :
         (Announced(f) /\ Member(c, file[f].epoch) /\ Holds(c, f)) => \A h \in Hints(c, f) : DecryptsWith(c, f, h, "none")
